@@ -115,6 +115,8 @@ type kustomizationFile struct {
 	path           string
 	fSys           filesys.FileSystem
 	originalFields []*commentedField
+	// trailingComments holds the comment and blank lines found after the last field
+	trailingComments []byte
 }
 
 // NewKustomizationFile returns a new instance.
@@ -215,6 +217,12 @@ func (mf *kustomizationFile) parseCommentedFields(content []byte) error {
 	if err != io.EOF {
 		return err
 	}
+	// comments after the last field (and an unterminated trailing comment line) are kept
+	// and written back after the original fields
+	if len(line) > 0 && isCommentOrBlankLine(line) {
+		comments = append(comments, append(line, '\n'))
+	}
+	mf.trailingComments = squash(comments)
 	return nil
 }
 
@@ -229,6 +237,7 @@ func (mf *kustomizationFile) marshal(kustomization *types.Kustomization) ([]byte
 		}
 		output = append(output, content...)
 	}
+	output = append(output, mf.trailingComments...)
 	for _, field := range fieldMarshallingOrder {
 		if mf.hasField(field) {
 			continue
